@@ -18,13 +18,14 @@ VERUS_UNITS = {
     "backend": ("units_backend", ["C02", "C03", "C04", "C05", "C07", "C09", "C20", "C01", "C13"]),
     "frontend": ("units_frontend", ["C01", "C02", "C03", "C06", "C07", "C10"]),
     "proxy": ("units_proxy", ["C18", "C06", "C07", "C10", "C09", "C01"]),
-    "misc": ("units_misc", ["C13", "C14", "C15", "C19", "C05"]),
+    "misc": ("units_misc", ["C13", "C14", "C15", "C05"]),
     "adapters": ("units_adapters", ["C02", "C14", "C11", "C18"]),
     "gpu": ("units_gpu", ["C01", "C06", "C10"]),
     "daemon": ("units_daemon", ["C16"]),
     "compat": ("units_compat", ["C03"]),
     "chunk": ("units_chunk", ["C08"]),
     "rank": ("units_rank", ["C17"]),
+    "kern": ("units_kern", ["C19"]),
 }
 # units in which a lock guard is encoded as a `&mut` borrow of its owner (rule R8)
 R8_UNITS = ("frontend", "proxy", "gpu")
@@ -63,7 +64,7 @@ def kani_harnesses():
             if not os.path.exists(p):
                 continue
             txt = open(p).read()
-            names = re.findall(r'\bfn\s+((?:c\d\d_)+\w+)\s*\(\s*\)', txt) + re.findall(r'(?:extract_harness|index_range|rank_harness)!\(\s*((?:c\d\d_)+\w+)', txt)
+            names = re.findall(r'\bfn\s+((?:c\d\d_)+\w+)\s*\(\s*\)', txt) + re.findall(r'(?:extract_harness|index_range|rank_harness|vhost_memory_layout)!\(\s*((?:c\d\d_)+\w+)', txt)
             for name in names:
                 props = ["C" + x for x in re.findall(r'c(\d\d)_', re.match(r'((?:c\d\d_)+)', name).group(1))]
                 props += KANI_ALSO.get(name, [])
